@@ -176,6 +176,28 @@ static void do_g2n(vf_case *c) {
 	/* in place */ VF_TRY(th, g2_norm_sim(in, (const g2_t *)in, 4)); if (!th) for (int q = 0; q < 4; q++) { char w[96]; snprintf(w, sizeof w, "g2_norm_sim in place, element %d = [%ld]G2 (identity at position %d)", q, idx[q], zp); mpz_set_si(e, idx[q]); expect_g2(w, in[q], e); }
 	for (int q = 0; q < 4; q++) { g2_free(in[q]); g2_free(out[q]); } mpz_clear(e);
 }
+/* cod: group (1, 2, 0 = GT), index, compression flag: encode / decode round trip, exact sizes, wrong lengths refused, an altered tag byte never yields an off-curve point */
+static void do_cod(vf_case *c) {
+	int grp = (int)mpz_get_si(c->v[0]), jj = (int)mpz_get_si(c->v[1]), pack = (int)mpz_get_si(c->v[2]), th; long j = LI[jj]; static uint8_t buf[8192], b2[8192]; bn_t k; bn_null(k); bn_new(k); if (j < 0) { bn_set_dig(k, (dig_t)(-j)); bn_neg(k, k); } else bn_set_dig(k, (dig_t)j);
+	if (grp == 2) { g2_t A, B; g2_null(A); g2_new(A); g2_null(B); g2_new(B); g2_mul_gen(A, k); size_t len = (size_t)g2_size_bin(A, pack); transitions++; if (len == 0 || len > 4000) { vf_fail(NULL, "g2_size_bin([%ld]G2, %d) = %zu", j, pack, len); return; }
+		memset(buf, 0xA5, sizeof buf); VF_TRY(th, g2_write_bin(buf, len, A, pack)); if (th) { vf_fail(NULL, "g2_write_bin([%ld]G2, pack %d) raised with the length g2_size_bin reports", j, pack); return; } for (int i = 0; i < 8; i++) if (buf[len + i] != 0xA5) { vf_fail(NULL, "g2_write_bin wrote beyond the length it was given"); break; }
+		VF_TRY(th, g2_read_bin(B, buf, len)); transitions++; if (th || g2_cmp(A, B) != RLC_EQ) vf_fail(NULL, "g2_read_bin(g2_write_bin([%ld]G2, pack %d)) is not the point (raised %d)", j, pack, th);
+		if (len > 1) { VF_TRY(th, g2_write_bin(b2, len - 1, A, pack)); transitions++; if (!th) vf_fail(NULL, "g2_write_bin accepts a buffer one byte too short ([%ld]G2, pack %d)", j, pack); VF_TRY(th, g2_read_bin(B, buf, len - 1)); transitions++; if (!th) vf_fail(NULL, "g2_read_bin accepts an encoding truncated by one byte ([%ld]G2, pack %d)", j, pack); }
+		VF_TRY(th, g2_read_bin(B, buf, len + 1)); transitions++; if (!th) vf_fail(NULL, "g2_read_bin accepts an encoding with one byte appended ([%ld]G2, pack %d)", j, pack);
+		for (int tb = 0; tb < 8; tb++) { memcpy(b2, buf, len); b2[0] ^= (uint8_t)(1u << tb); VF_TRY(th, g2_read_bin(B, b2, len)); transitions++; if (!th && !g2_is_infty(B) && !g2_on_curve(B)) vf_fail(NULL, "g2_read_bin returns an off-curve point for the encoding of [%ld]G2 (pack %d) with bit %d of the tag byte flipped", j, pack, tb); }
+		g2_free(A); g2_free(B); }
+	else if (grp == 1) { g1_t A, B; g1_null(A); g1_new(A); g1_null(B); g1_new(B); g1_mul_gen(A, k); size_t len = (size_t)g1_size_bin(A, pack); transitions++; if (len == 0 || len > 4000) { vf_fail(NULL, "g1_size_bin = %zu", len); return; }
+		memset(buf, 0xA5, sizeof buf); VF_TRY(th, g1_write_bin(buf, len, A, pack)); if (th) { vf_fail(NULL, "g1_write_bin([%ld]G1, pack %d) raised", j, pack); return; } for (int i = 0; i < 8; i++) if (buf[len + i] != 0xA5) { vf_fail(NULL, "g1_write_bin wrote beyond the length it was given"); break; }
+		VF_TRY(th, g1_read_bin(B, buf, len)); transitions++; if (th || g1_cmp(A, B) != RLC_EQ) vf_fail(NULL, "g1_read_bin(g1_write_bin([%ld]G1, pack %d)) is not the point (raised %d)", j, pack, th);
+		if (len > 1) { VF_TRY(th, g1_read_bin(B, buf, len - 1)); transitions++; if (!th) vf_fail(NULL, "g1_read_bin accepts an encoding truncated by one byte ([%ld]G1, pack %d)", j, pack); } VF_TRY(th, g1_read_bin(B, buf, len + 1)); transitions++; if (!th) vf_fail(NULL, "g1_read_bin accepts an encoding with one byte appended ([%ld]G1, pack %d)", j, pack);
+		g1_free(A); g1_free(B); }
+	else { gt_t A, B; gt_null(A); gt_new(A); gt_null(B); gt_new(B); gt_exp_gen(A, k); size_t len = (size_t)gt_size_bin(A, pack); transitions++; if (len == 0 || len > 8000) { vf_fail(NULL, "gt_size_bin = %zu", len); return; }
+		memset(buf, 0xA5, sizeof buf); VF_TRY(th, gt_write_bin(buf, len, A, pack)); if (th) { vf_fail(NULL, "gt_write_bin(E0^%ld, pack %d) raised with the length gt_size_bin reports", j, pack); return; } for (int i = 0; i < 8; i++) if (buf[len + i] != 0xA5) { vf_fail(NULL, "gt_write_bin wrote beyond the length it was given"); break; }
+		VF_TRY(th, gt_read_bin(B, buf, len)); transitions++; if (th || gt_cmp(A, B) != RLC_EQ) vf_fail(j == 0 && pack && th ? "L44-compressed-unity-not-decodable" : NULL, "gt_read_bin(gt_write_bin(E0^%ld, pack %d)) is not the element (raised %d)", j, pack, th);
+		VF_TRY(th, gt_read_bin(B, buf, len + 1)); transitions++; if (!th) vf_fail(NULL, "gt_read_bin accepts an encoding with one byte appended (E0^%ld, pack %d)", j, pack);
+		gt_free(A); gt_free(B); }
+	bn_free(k);
+}
 /* g2f: power, index, representation: the Frobenius endomorphism acts on G2 as multiplication by p: e(G1, frb^i([j]G2)) = E0^(j p^i) */
 static void do_g2f(vf_case *c) {
 	int pw = (int)mpz_get_si(c->v[0]), jj = (int)mpz_get_si(c->v[1]), proj = (int)mpz_get_si(c->v[2]), th; long j = LI[jj]; g2_t A, X; g2_null(A); g2_new(A); g2_null(X); g2_new(X); mk_g2(A, j, proj && j != 0);
@@ -232,7 +254,7 @@ static void do_val(vf_case *c) {
 static void run_case(vf_case *c) {
 	vf_nontrivial(); if (!vf_replaying) vf_stat_add("states", 1);
 	if (!strcmp(c->op, "base")) { do_base(c); return; } if (!ready) return;
-	if (!strcmp(c->op, "bil")) do_bil(c); else if (!strcmp(c->op, "sim")) do_sim(c); else if (!strcmp(c->op, "g2m")) do_g2m(c); else if (!strcmp(c->op, "g1m")) do_g1m(c); else if (!strcmp(c->op, "g2l")) do_g2l(c); else if (!strcmp(c->op, "g2f")) do_g2f(c); else if (!strcmp(c->op, "g2c")) do_g2c(c); else if (!strcmp(c->op, "g2n")) do_g2n(c); else if (!strcmp(c->op, "map")) do_map(c); else if (!strcmp(c->op, "gte")) do_gte(c); else if (!strcmp(c->op, "val")) do_val(c); else vf_fail(NULL, "unknown op");
+	if (!strcmp(c->op, "bil")) do_bil(c); else if (!strcmp(c->op, "sim")) do_sim(c); else if (!strcmp(c->op, "g2m")) do_g2m(c); else if (!strcmp(c->op, "g1m")) do_g1m(c); else if (!strcmp(c->op, "g2l")) do_g2l(c); else if (!strcmp(c->op, "g2f")) do_g2f(c); else if (!strcmp(c->op, "g2c")) do_g2c(c); else if (!strcmp(c->op, "g2n")) do_g2n(c); else if (!strcmp(c->op, "cod")) do_cod(c); else if (!strcmp(c->op, "map")) do_map(c); else if (!strcmp(c->op, "gte")) do_gte(c); else if (!strcmp(c->op, "val")) do_val(c); else vf_fail(NULL, "unknown op");
 }
 static vf_case K;
 #define RUN2(OP, A, B) do { if (vf_mine() && !vf_expired()) { K.op = OP; K.n = 2; mpz_set_si(K.v[0], A); mpz_set_si(K.v[1], B); vf_run(&K); } } while (0)
@@ -251,6 +273,7 @@ static void enumerate(void) {
 	snprintf(bn, sizeof bn, "c12-k%d-gt-exponentiation-forms", K_); if (vf_bound_on(bn)) { for (int rt = 0; rt < NGER; rt++) for (int k = 0; k < (rt == 7 ? K_ + 2 : NSC); k++) RUN2("gte", rt, k); vf_bound_done(bn); }
 	snprintf(bn, sizeof bn, "c12-k%d-validity-predicates", K_); if (vf_bound_on(bn)) { for (int k = 0; k < NSC; k++) RUN2("val", 0, k); for (int i = 0; i < 12; i++) RUN2("val", 1, i); vf_bound_done(bn); }
 	snprintf(bn, sizeof bn, "c11-k%d-twist-points-outside-the-subgroup-and-cofactor", K_); if (vf_bound_on(bn)) { for (int i = 0; i < (vf_tier ? 12 : 4); i++) RUN2("val", 2, i); vf_bound_done(bn); }
+	snprintf(bn, sizeof bn, "c07-k%d-group-element-encodings", K_); if (vf_bound_on(bn)) { for (int grp = 0; grp < 3; grp++) for (int j = 0; j < NLI; j++) for (int pack = 0; pack < 2; pack++) RUN3("cod", grp, j, pack); vf_bound_done(bn); }
 	snprintf(bn, sizeof bn, "c13-k%d-hashing-to-the-groups", K_); if (vf_bound_on(bn)) { static const long ML[] = {0, 1, 2, 3, 7, 8, 15, 16, 31, 32, 33, 47, 48, 63, 64, 65, 100, 127, 128, 129, 200, 255, 256, 1000}; for (unsigned i = 0; i < sizeof ML / sizeof *ML; i++) for (int pat = 0; pat < 3; pat++) RUN2("map", ML[i], pat); vf_bound_done(bn); }
 	vf_stat_add("transitions", transitions);
 }
